@@ -1006,3 +1006,16 @@ Proof.
   - exists {| cp_flags := FlagsOk; cp_list := true; cp_help := false; cp_list_err := true; cp_default := NoDefault;
               cp_ignore_default := false; cp_mentions := [] |}. repeat split; reflexivity.
 Qed.
+
+(* a flag error anywhere on mage's command line, whatever valid options, commands and words stand before or after
+   it: 2, a message, and nothing is built or run *)
+Lemma flag_error_anywhere : forall fixed sc, fa_parse (sc_args sc) = FlagsBad ->
+  mage_status fixed sc = 2 /\ f_child (mage_run fixed sc) = false /\ f_msg (mage_run fixed sc) = true.
+Proof.
+  intros fixed sc H.
+  assert (M : misuse (sc_args sc)).
+  { split; [intros [E|[E _]]; congruence|left; exact H]. }
+  destruct (front_misuse_two fixed sc M) as [E1 E2]. split; [exact E1|]. split; [exact E2|].
+  destruct (Parse_spec (sc_args sc)) as [_ [P2 _]]. apply P2 in M.
+  unfold mage_run, ParseAndRun. destruct (Parse (sc_args sc)) as [cmd e]. simpl in M. subst e. destruct cmd; reflexivity.
+Qed.
